@@ -127,6 +127,11 @@ type DocCase struct {
 	// Isolate: the options are switched on on ANOTHER template of the same set (after both were compiled); Src must
 	// render as if no option were on
 	Isolate bool `json:"isolate,omitempty"`
+	// ViaUpdate: one compiled template is walked through all four settings with Options.Update (both on first), and
+	// must render each time like the source hand-stripped for THAT setting; Twins holds the four hand-stripped sources
+	// in the order TT, FT, TF, FF
+	ViaUpdate bool    `json:"via_update,omitempty"`
+	Twins     []eng.Q `json:"twins,omitempty"`
 }
 
 func (c *DocCase) ID() string {
@@ -140,6 +145,9 @@ func (c *DocCase) ID() string {
 	if c.Isolate {
 		id += " options-on-another-template"
 	}
+	if c.ViaUpdate {
+		id += " via-Options.Update"
+	}
 	return id
 }
 
@@ -150,6 +158,25 @@ func (c *DocCase) Exec(t *eng.T) {
 		t.Nontrivial()
 	}
 	var got, want px.Out
+	if c.ViaUpdate {
+		set, _ := px.NewSet(nil)
+		tpl, out := px.Compile(set, string(c.Src))
+		if tpl == nil {
+			t.Fail("ws-error:options-update", "%s does not compile: %s", c.ID(), out)
+			return
+		}
+		for i, st := range [][2]bool{{true, true}, {false, true}, {true, false}, {false, false}} {
+			tpl.Options.Update(&pongo2.Options{TrimBlocks: st[0], LStripBlocks: st[1]})
+			g := px.Exec(tpl, ctx())
+			w := px.Render(nil, string(c.Twins[i]), ctx())
+			if g.String() != w.String() {
+				t.Fail("ws:options-update", "%s: after Options.Update(TrimBlocks=%v, LStripBlocks=%v) as step %d of TT,FT,TF,FF the template renders %s; the source hand-stripped for that setting renders %s", c.ID(), st[0], st[1], i+1, g, w)
+				return
+			}
+		}
+		t.Outcome("options-update")
+		return
+	}
 	if c.Isolate {
 		set, _ := px.NewSet(map[string]string{"/inc": "i"})
 		tpl, out := px.Compile(set, string(c.Src))
@@ -583,6 +610,21 @@ func run(r *eng.Runner) {
 			for opt := 1; opt < 4; opt++ {
 				r.Do(&DocCase{Src: eng.Q(src), Twin: eng.Q(src), TrimBlocks: opt&1 != 0, LStrip: opt&2 != 0, Kind: "isolation:" + c.name, Isolate: true})
 			}
+			return !r.Stopped()
+		})
+	}
+	r.Group("options-update", "c15.doc", "the one-construct documents (W over 5 runs, no dashes): ONE compiled template walked through TT, FT, TF, FF with Template.Options.Update, each rendering compared with the source hand-stripped for that setting")
+	for _, c := range cs {
+		enum.Tuples(len(w2), 4, func(wi []int) bool {
+			var doc []item
+			doc = append(doc, item{text: w2[wi[0]] + "a" + w2[wi[1]]})
+			doc = append(doc, c.items(flags(0, c.nd), "\n ", " \n")...)
+			doc = append(doc, item{text: w2[wi[2]] + "b" + w2[wi[3]]})
+			var twins []eng.Q
+			for _, st := range [][2]bool{{true, true}, {false, true}, {true, false}, {false, false}} {
+				twins = append(twins, eng.Q(source(handStrip(doc, st[0], st[1]))))
+			}
+			r.Do(&DocCase{Src: eng.Q(source(doc)), TrimBlocks: true, LStrip: true, Kind: "options-update:" + c.name, ViaUpdate: true, Twins: twins})
 			return !r.Stopped()
 		})
 	}
